@@ -42,6 +42,7 @@ first_missed = {
  'C04-f': 'CircuitOperation is not in the C04 gate menu; the change is caught by the C12 check (unitary.single.*), see also_detected_by in meta.json',
  'C09-e': 'trajectories were only unravelled for qubits; trajectory.qudit_reset* / dm_simulate.qudit_reset (ResetChannel(d), d = 2..4, every populated level symbolic) added afterwards',
  'C09-f': 'Kraus / superoperator / Choi descriptions were only compared for single operations; descriptions.moment_* / circuit_expanded (moments with operations stored in non-sorted qubit order) added afterwards',
+ 'C01-f': 'zero-qubit operations were not in the C01 gate menu; simulate.global_phase_op (global phase operation at every position, all entry points, split on/off) added afterwards',
  'C19-b': 'the concrete KAK fall-back menu only had gates with interaction (x,0,0); matrix-only gates with generic coefficients added afterwards',
 }
 cross_only = {'C03-e', 'C04-f'}  # caught by a neighbouring property's check from the start, never by their own
